@@ -637,6 +637,43 @@ pub fn generate(prop: &str, thorough: bool, rng: &mut Rng) -> Case {
             cfg.insert("buf_pages".into(), per * flushers);
             return Case { property: prop.to_string(), scenario: "c08".into(), cfg, clients: vec![vec![]] };
         }
+        "C07" if rng.chance(1, if thorough { 10 } else { 25 }) => {
+            // big-block variant: one-page entries in 1 MiB blocks, so that a blob index (170 entries per 4 KiB index)
+            // fills up exactly, a second blob follows it in the same block, blocks are reclaimed and reused, and the new
+            // data of a reused block ends exactly where the index of an old blob sits
+            let per_block = 254u64; // 1 + 170 + 1 + 84 pages
+            let long = rng.chance(1, 2);
+            cfg.insert("policy".into(), 0);
+            cfg.insert("mem_cap".into(), 2);
+            cfg.insert("mem_shards".into(), 1);
+            cfg.insert("inmem_mod".into(), 0);
+            cfg.insert("ondisk_mod".into(), 0);
+            cfg.insert("hmode".into(), 0);
+            cfg.insert("comp".into(), 0);
+            cfg.insert("tomb".into(), 0);
+            cfg.insert("block_pages".into(), 256);
+            cfg.insert("blob_pages".into(), 1);
+            cfg.insert("blocks".into(), 4);
+            cfg.insert("flushers".into(), 1);
+            cfg.insert("reclaimers".into(), 1);
+            cfg.insert("clean_thr".into(), 1);
+            cfg.insert("buf_pages".into(), *rng.pick(&[64i64, 200, 300]));
+            cfg.insert("max_steps".into(), 60_000_000);
+            let total = if long { per_block * (4 + rng.below(2) as u64) + 170 + *rng.pick(&[0u64, 0, 0, 1, 2]) - *rng.pick(&[0u64, 0, 1]) } else { 170 + 10 + rng.below(60) as u64 };
+            cfg.insert("keys".into(), total as i64);
+            let mut ops = vec![];
+            for k in 0..total {
+                ops.push(Op::WriterInsert { k, ver: 0, w: 101, force: true });
+                // a flush batch ends exactly where a blob index becomes full, and now and then elsewhere
+                let in_block = k % per_block;
+                if in_block == 169 || (k % 97 == 96) {
+                    ops.push(Op::Ctl { what: 14, arg: 0 });
+                }
+            }
+            ops.push(Op::Wait);
+            ops.push(Op::Reopen);
+            clients.push(ops);
+        }
         "C07" => {
             let c08 = false;
             let keys = 6 + rng.below(6) as u64;
